@@ -21,7 +21,7 @@ def addText (h : Heap) (s : Nat) (txt : List Nat) : Heap :=
              owner := upd (upd h.owner h.next (some ((h.owner s).getD 0))) h.next
                         (upd h.owner h.next (some ((h.owner s).getD 0)) s),
              kind := upd h.kind h.next .text, text := upd h.text h.next (txt.flatMap h.text),
-             name := upd h.name h.next 0, attr := upd h.attr h.next none }
+             name := upd h.name h.next 0, attr := upd h.attr h.next none, attr2 := upd h.attr2 h.next none }
     s (h.kids s).length h.next
 
 theorem appendText_nil (h : Heap) (s : Nat) : appendText h s [] = h := by simp [appendText]
@@ -56,6 +56,24 @@ theorem addText_noAlias (ha : NoAlias h) : NoAlias (addText h s txt) := by
   intro n; simp only [addText, putAt, upd]; split
   · rfl
   · exact ha n
+theorem addText_owned (ho : Owned h) (hs : s ≠ h.next) : Owned (addText h s txt) := by
+  intro n
+  have h0 := ho s
+  simp only [addText, putAt, upd, hs, if_false, h0, Option.getD_some]
+  split
+  · rfl
+  · exact ho n
+theorem addText_fresh (hf : Fresh h) (hs : s < (h.next : Nat)) : Fresh (addText h s txt) := by
+  intro n hn
+  have hn' : (h.next : Nat) + 1 ≤ n := hn
+  have h1 : n ≠ s := by omegaId
+  have h2 : n ≠ h.next := by omegaId
+  rw [addText_kids_other h s txt n h1 h2]
+  exact hf n (by omegaId)
+theorem addText_noAttr2 (hb : NoAttr2 h) : NoAttr2 (addText h s txt) := by
+  intro n; simp only [addText, putAt, upd]; split
+  · rfl
+  · exact hb n
 end addText
 
 theorem addText_closed {h : Heap} (hc : Closed h h.next) (s : Nat) (txt : List Nat) (hs : s < (h.next : Nat)) :
@@ -103,12 +121,12 @@ def normStep (f : Nat) (s : Nat) (a : Heap × List Nat) (item : Nat) : Heap × L
   if a.1.kind item = .text then (a.1, a.2 ++ [item])
   else (normalize f (append (fuelOf (appendText a.1 s a.2)) (appendText a.1 s a.2) s item) item, [])
 
-theorem normalize_succ_eq (f : Nat) {h : Heap} (ha : NoAlias h) (s : Nat) (hk : h.kind s ≠ .text) :
+theorem normalize_succ_eq (f : Nat) {h : Heap} (ha : NoAlias h) (hb : NoAttr2 h) (s : Nat) (hk : h.kind s ≠ .text) :
     normalize (f + 1) h s =
       appendText ((h.kids s).foldl (normStep f s) (clearKids h s, [])).1 s
         ((h.kids s).foldl (normStep f s) (clearKids h s, [])).2 := by
   rw [normalize]
-  simp only [hk, if_false, ha s, childList_eq ha, cn_eq ha]
+  simp only [hk, if_false, ha s, hb s, childList_eq ha, cn_eq ha]
   rfl
 
 /-! ### facts about unfolded trees -/
@@ -172,6 +190,9 @@ def SameLab (h a : Heap) (n : Nat) : Prop := a.kind n = h.kind n ∧ a.text n = 
 /-- state of the loop over `nodes = h.kids s`: `a` the heap, `txt` the pending text nodes, `rest` the items to come -/
 structure FI (f : Nat) (h : Heap) (s : Nat) (a : Heap) (txt rest : List Nat) : Prop where
   noAlias : NoAlias a
+  noAttr2 : NoAttr2 a
+  owned : Owned h → Owned a
+  fresh : Fresh h → Fresh a
   closed : Closed a a.next
   next_le : (h.next : Nat) ≤ a.next
   labels : ∀ n : Nat, n < (h.next : Nat) → SameLab h a n
@@ -189,6 +210,7 @@ structure FI (f : Nat) (h : Heap) (s : Nat) (a : Heap) (txt rest : List Nat) : P
 /-- the fixed side conditions of the loop -/
 structure Side (f : Nat) (h : Heap) (s : Nat) : Prop where
   noAlias : NoAlias h
+  noAttr2 : NoAttr2 h
   closed : Closed h h.next
   slt : s < (h.next : Nat)
   snot : s ∉ idsL ((h.kids s).map (abs f (toLL h)))
@@ -205,7 +227,7 @@ theorem fi_text {f : Nat} {h : Heap} {s : Nat} {a : Heap} {txt rest : List Nat} 
     FI f h s a (txt ++ [t]) rest := by
   have ht := side_item sd (hsub t (by simp))
   have hkt : (toLL h).kind t = .text := by simp [hk, kindOf]
-  refine ⟨inv.noAlias, inv.closed, inv.next_le, inv.labels, ?_, inv.otherKids, ?_, ?_, ?_⟩
+  refine ⟨inv.noAlias, inv.noAttr2, inv.owned, inv.fresh, inv.closed, inv.next_le, inv.labels, ?_, inv.otherKids, ?_, ?_, ?_⟩
   · intro i hi
     exact inv.restKids i (by rw [idsL_map_cons]; exact List.mem_append_right _ hi)
   · intro u hu
@@ -253,7 +275,9 @@ theorem fi_flush {f : Nat} {h : Heap} {s : Nat} {a : Heap} {txt rest : List Nat}
       obtain ⟨h1, _, h3, _⟩ := inv.outIds g hg i (mem_idsL_map hc hi)
       have hiv : i ≠ a.next := by omegaId
       exact sameAt_of (addText_kids_other a s txt i h1 hiv) (addText_labels a s txt i hiv)
-    refine ⟨addText_noAlias a s txt inv.noAlias, addText_closed inv.closed s txt (by have := sd.slt; have := inv.next_le; omegaId),
+    refine ⟨addText_noAlias a s txt inv.noAlias, addText_noAttr2 a s txt inv.noAttr2,
+      fun ho => addText_owned a s txt (inv.owned ho) hsv,
+      fun hf => addText_fresh a s txt (inv.fresh hf) (by have := sd.slt; have := inv.next_le; omegaId), addText_closed inv.closed s txt (by have := sd.slt; have := inv.next_le; omegaId),
       by rw [addText_next]; have := inv.next_le; omegaId, ?_, ?_, ?_, ?_, ?_, ?_⟩
     · intro n hn
       have hnv : n ≠ a.next := by have := inv.next_le; omegaId
@@ -292,6 +316,9 @@ theorem fi_flush {f : Nat} {h : Heap} {s : Nat} {a : Heap} {txt rest : List Nat}
 
 structure NormSpec (f : Nat) (h : Heap) (s : Nat) (h' : Heap) : Prop where
   noAlias : NoAlias h'
+  noAttr2 : NoAttr2 h'
+  owned : Owned h → Owned h'
+  fresh : Fresh h → Fresh h'
   closed : Closed h' h'.next
   next_le : (h.next : Nat) ≤ h'.next
   labels : ∀ n : Nat, n < (h.next : Nat) → SameLab h h' n
@@ -303,7 +330,7 @@ structure NormSpec (f : Nat) (h : Heap) (s : Nat) (h' : Heap) : Prop where
 /-- the hypotheses under which `normalize f h s` is specified: well-formed heap, allocated root, and the unfolding of
     `s` to depth `f` repeats no node (the part of the heap below `s` is a tree) -/
 def NormPre (f : Nat) (h : Heap) (s : Nat) : Prop :=
-  NoAlias h ∧ Closed h h.next ∧ s < (h.next : Nat) ∧ (abs f (toLL h) s).ids.Nodup
+  NoAlias h ∧ NoAttr2 h ∧ Closed h h.next ∧ s < (h.next : Nat) ∧ (abs f (toLL h) s).ids.Nodup
 
 theorem fi_node {f : Nat}
     (ih : ∀ (h : Heap) (s : Nat), NormPre f h s → NormSpec f h s (normalize f h s))
@@ -340,7 +367,7 @@ theorem fi_node {f : Nat}
     intro i hi
     exact ysame i (ids_abs_mono (toLL h) g f hg y i hi)
   have pre : NormPre f (putAt a s (a.kids s).length y) y :=
-    ⟨ha2, hc2, hya, by rw [yabs f (Nat.le_refl _)]; exact hndy⟩
+    ⟨ha2, fun n => inv.noAttr2 n, hc2, hya, by rw [yabs f (Nat.le_refl _)]; exact hndy⟩
   have spec := ih _ y pre
   generalize normalize f (putAt a s (a.kids s).length y) y = a3 at spec ⊢
   have hn23 : ((putAt a s (a.kids s).length y).next : Nat) = a.next := rfl
@@ -358,7 +385,14 @@ theorem fi_node {f : Nat}
     obtain ⟨h1, h2, h3, _⟩ := inv.outIds g hg i (mem_idsL_map hc hi)
     have hiy : i ∉ (abs f (toLL h) y).ids := fun hm => h2 (by rw [idsL_map_cons]; exact List.mem_append_left _ hm)
     exact sameAt_of (by rw [frame3 i h3 hiy, k2o i h1]) (lab3 i h3)
-  refine ⟨spec.noAlias, spec.closed, by have := spec.next_le; have := inv.next_le; omegaId, ?_, ?_, ?_, ?_, ?_, ?_⟩
+  have fresh2 : Fresh a → Fresh (putAt a s (a.kids s).length y) := by
+    intro hf n hn
+    have hn' : (a.next : Nat) ≤ n := hn
+    rw [k2o n (by have := sd.slt; have := inv.next_le; omegaId)]
+    exact hf n hn'
+  refine ⟨spec.noAlias, spec.noAttr2, fun ho => spec.owned (owned_putAt (inv.owned ho) _ _ _),
+    fun hf => spec.fresh (fresh2 (inv.fresh hf)), spec.closed,
+    by have := spec.next_le; have := inv.next_le; omegaId, ?_, ?_, ?_, ?_, ?_, ?_⟩
   · intro n hn
     obtain ⟨l1, l2, l3⟩ := lab3 n (by have := inv.next_le; omegaId)
     obtain ⟨m1, m2, m3⟩ := inv.labels n hn
@@ -449,21 +483,21 @@ theorem norm_spec : ∀ (f : Nat) (h : Heap) (s : Nat), NormPre f h s → NormSp
   intro f
   induction f with
   | zero =>
-    intro h s ⟨ha, hc, hs, _⟩
+    intro h s ⟨ha, hb, hc, hs, _⟩
     simp only [normalize]
-    refine ⟨ha, hc, Nat.le_refl _, fun n _ => ⟨rfl, rfl, rfl⟩, fun n _ _ => rfl, ?_, fun g hg i hi => Or.inl ?_⟩
+    refine ⟨ha, hb, id, id, hc, Nat.le_refl _, fun n _ => ⟨rfl, rfl, rfl⟩, fun n _ _ => rfl, ?_, fun g hg i hi => Or.inl ?_⟩
     · intro g hg
       obtain rfl : g = 0 := by omega
       exact (zero_depth_normalize_shape _ _).symm
     · obtain rfl : g = 0 := by omega
       exact hi
   | succ f ih =>
-    intro h s ⟨ha, hc, hs, hnd⟩
+    intro h s ⟨ha, hb, hc, hs, hnd⟩
     by_cases hk : h.kind s = .text
     · have hkt : (toLL h).kind s = .text := by simp [hk, kindOf]
       have : normalize (f + 1) h s = h := by rw [normalize]; simp [hk]
       rw [this]
-      refine ⟨ha, hc, Nat.le_refl _, fun n _ => ⟨rfl, rfl, rfl⟩, fun n _ _ => rfl, ?_, fun g hg i hi => Or.inl ?_⟩
+      refine ⟨ha, hb, id, id, hc, Nat.le_refl _, fun n _ => ⟨rfl, rfl, rfl⟩, fun n _ _ => rfl, ?_, fun g hg i hi => Or.inl ?_⟩
       · intro g _; rw [abs_text hkt g]; simp [Tree.normalize, Tree.shape]
       · rw [abs_text hkt] at hi ⊢; exact hi
     · have hky : (toLL h).kind s ≠ .text := by
@@ -471,11 +505,16 @@ theorem norm_spec : ∀ (f : Nat) (h : Heap) (s : Nat), NormPre f h s → NormSp
       rw [abs_succ_node hky f] at hnd
       simp only [Tree.ids, toLL_kids] at hnd
       obtain ⟨hsnot, hndk⟩ := List.nodup_cons.mp hnd
-      have sd : Side f h s := ⟨ha, hc, hs, hsnot⟩
-      rw [normalize_succ_eq f ha s hk]
+      have sd : Side f h s := ⟨ha, hb, hc, hs, hsnot⟩
+      rw [normalize_succ_eq f ha hb s hk]
       -- the loop
       have init : FI f h s (clearKids h s) [] (h.kids s) := by
-        refine ⟨fun n => ha n, clearKids_closed hc s, Nat.le_refl _, fun n _ => ⟨rfl, rfl, rfl⟩, ?_, ?_, ?_, ?_, ?_⟩
+        refine ⟨fun n => ha n, fun n => hb n, fun ho n => ho n, ?_, clearKids_closed hc s, Nat.le_refl _, fun n _ => ⟨rfl, rfl, rfl⟩, ?_, ?_, ?_, ?_, ?_⟩
+        · intro hf n hn
+          have := hf n hn
+          simp only [clearKids, upd]; split
+          · rfl
+          · exact this
         · intro i hi
           have : i ≠ s := fun e => hsnot (e ▸ hi)
           simp [clearKids, upd, this]
@@ -492,7 +531,7 @@ theorem norm_spec : ∀ (f : Nat) (h : Heap) (s : Nat), NormPre f h s → NormSp
       generalize appendText r.1 s r.2 = a at last ⊢
       obtain ⟨lk, lt, ln⟩ := last.labels s hs
       have hka : (toLL a).kind s ≠ .text := by simp only [toLL_kind, lk]; exact fun e => hk ((kindOf_text _).mp e)
-      refine ⟨last.noAlias, last.closed, last.next_le, last.labels, ?_, ?_, ?_⟩
+      refine ⟨last.noAlias, last.noAttr2, last.owned, last.fresh, last.closed, last.next_le, last.labels, ?_, ?_, ?_⟩
       · intro n hn hni
         rw [abs_succ_node hky f] at hni
         simp only [Tree.ids, List.mem_cons, not_or, toLL_kids] at hni
